@@ -70,7 +70,8 @@
   -M first, then priority-then-name order               forced_first, spec_sound (clause `order`), list_sort correct
                                                            (Mod/SortLemmas.lean); list_sort's POINTER LOOP (cursors ppPrev /
                                                            pp / ppPos on links, Mod/SortCursor.lean) computes the modelled
-                                                           sort: list_sort_loop_as_written; the cursor re-basing test is
+                                                           sort: list_sort_loop_as_written, loader_runs_pointer_loop (the
+                                                           driver runs that form); the cursor re-basing test is
                                                            needed: list_sort_rebase_witness (seeded change C17-13)
   a module with a taken option is inactive as a whole   conflict_all_or_nothing, initialize_all_or_nothing,
                                                            inactive_options_not_accepted
@@ -546,6 +547,13 @@ theorem list_sort_loop_as_written (l : List Mod) :
   · intro l₂ hn hp hd
     rw [listSortCursor_eq, listSortCursor_eq, Now.listSort_eq, Now.listSort_eq]
     exact listSort_unique Tie.cmpF_totalPre l₂ l (hp.nodup_iff.mpr hn) hn (fun a => hp.mem_iff) hd
+
+/-- what `pdshmodel mod model cursor` runs -- the loader with list_sort's pointer loop inside -- is the loader of the
+    theorems of this file (`Now.loadAll`, and `Now.loadAllRename` with findings/C17-sameobj-tie.patch), for every
+    environment; the check compares THAT form with pdsh on every case -/
+theorem loader_runs_pointer_loop (oid : Str → Nat) (e : Env) :
+    Now.loadAllCursor false oid e = Now.loadAll oid e ∧ Now.loadAllCursor true oid e = Now.loadAllRename oid e :=
+  Now.loadAllCursor_eq oid e
 
 /-- non-vacuity: five modules' worth of keys in a bad initial order -/
 example : listSortCursor (fun a b : Int => a - b) [3, 2, 0, 1, 2] = [0, 1, 2, 2, 3] := by decide
